@@ -459,7 +459,22 @@ func (w *World) call(t *Thread, caller *frame, fn *ssa.Function, args []Value, e
 	}
 	name := fn.String()
 	if fn.Parent() == nil {
-		if in := lookupIntrinsic(fn, name); in != nil && w.skipIntrinsic != fn {
+		// a model supplied by the harness for this callee (verifnd.UseModel): third-party engines
+		// whose documented callback protocol the harness writes down in Go
+		realCode := false
+		if ms, ok := w.ext["usemodels"]; ok {
+			if m, ok := ms.(map[string]Value)[name]; ok {
+				if m == nil {
+					realCode = true // UseModel(name, nil): the real code instead of the engine's summary
+				} else {
+					if w.res != nil {
+						w.res.Models["harness model of "+name] = true
+					}
+					return w.callValue(t, caller, m, args)
+				}
+			}
+		}
+		if in := lookupIntrinsic(fn, name); in != nil && w.skipIntrinsic != fn && !realCode {
 			if w.res != nil {
 				w.res.Models[name] = true
 			}
